@@ -403,6 +403,24 @@ def _returns_clamped(g, ceil):
             if len(args) == 2 and (_is_field(args[0], ceil) or _is_field(args[1], ceil)):
                 continue
             return False
+        if e.k == "ConditionalOperator" and len(e.c) == 3:
+            # (v > ceil) ? ceil : v     (v < ceil) ? v : ceil     and the mirrored / non-strict spellings
+            cmp_ = as_comparison(e.c[0])
+            if cmp_ is not None:
+                l, op, r2 = cmp_
+                t, f_ = e.c[1].strip_all(), e.c[2].strip_all()
+                if _is_field(r2, ceil) and not _is_field(l, ceil):
+                    v = l
+                elif _is_field(l, ceil) and not _is_field(r2, ceil):
+                    v, op = r2, {"<": ">", "<=": ">=", ">": "<", ">=": "<="}.get(op, op)
+                else:
+                    return False
+                same = lambda a, b: a.strip_all().text() == b.strip_all().text()
+                if op in (">", ">=") and _is_field(t, ceil) and same(f_, v):
+                    continue
+                if op in ("<", "<=") and _is_field(f_, ceil) and same(t, v):
+                    continue
+            return False
         if e.k == "DeclRefExpr" and e.decl and e.decl.get("k") in ("local", "parm"):
             var = ("local", e.decl["id"], e.decl.get("n"))
             clamps = _find_clamps(g, var, ceil)
